@@ -183,7 +183,7 @@ UNWRAPS = {'core::option::Option::unwrap', 'core::option::Option::expect', 'core
 
 
 def r4_no_panic(ctx):
-    ctx.rule('C15.R4', 'P3 audit: no body under pavex::request::{path,query,body} calls a panic entry point, unwrap/expect, or contains an '
+    ctx.rule('C15.R4', 'P3 audit: no body under pavex::request::{path,query,body} calls a panic entry point, unwrap/expect, slices a str by a byte range, or contains an '
              'arithmetic/bounds Assert terminator; positive control: the same query finds such sites elsewhere in pavex.')
     mods = (RQ + 'path::', RQ + 'query::', RQ + 'body::', '<' + RQ + 'path::', '<' + RQ + 'query::', '<' + RQ + 'body::')
     inside, outside, bodies = 0, 0, 0
@@ -198,6 +198,10 @@ def r4_no_panic(ctx):
             c = callee(t) or ''
             if c.startswith(PANICS) or c in UNWRAPS:
                 sites.append((bb, t, c))
+            elif c in ('core::ops::index::Index::index', 'core::ops::index::IndexMut::index_mut') and t['aty'] and \
+                    t['aty'][0].replace('&mut ', '&') in ('&str', '&alloc::string::String') and len(t['aty']) > 1 and 'Range' in t['aty'][1]:
+                # `s[a..b]` panics when a bound is not on a char boundary (or out of range)
+                sites.append((bb, t, 'str-slice-by-byte-range'))
         for bb in b.live_blocks():
             t = b.term(bb)
             if t and t['k'] == 'assert':
